@@ -268,6 +268,80 @@ def stmt_text(g, nid):
     return ' '.join(norm(nd.ast).split())[:160] if nd.kind in ('stmt',) else nd.label
 
 
+def _chain(e):
+    """dotted access path with local names abstracted: self.element.add -> 'self.element.add', child.value -> '_.value',
+    super(X, self).add -> 'super().add'"""
+    if isinstance(e, ast.Attribute):
+        return _chain(e.value) + '.' + e.attr
+    if isinstance(e, ast.Name):
+        return e.id if e.id in ('self', 'cls') or e.id[:1].isupper() else '_'
+    if isinstance(e, ast.Call):
+        if isinstance(e.func, ast.Name) and e.func.id == 'super':
+            return 'super()'
+        return _chain(e.func) + '()'
+    if isinstance(e, ast.Subscript):
+        return _chain(e.value) + '[]'
+    return '_'
+
+
+def sig_of(node):
+    """signature of a statement that survives re-spelling of arguments, keyword/positional changes and renamed locals:
+    what is called / stored / raised, not how"""
+    if isinstance(node, ast.Raise):
+        exc = node.exc
+        if isinstance(exc, ast.Call):
+            exc = exc.func
+        return 'raise ' + (norm(exc) if exc is not None else '')
+    if isinstance(node, (ast.Assign, ast.AugAssign, ast.AnnAssign)):
+        tgts = node.targets if isinstance(node, ast.Assign) else [node.target]
+        t = ','.join(sorted(_chain(x) for x in tgts))
+        v = node.value
+        rhs = _call_name(v) if isinstance(v, ast.Call) else ''
+        stores = any(isinstance(x, (ast.Attribute, ast.Subscript)) for x in tgts)
+        if stores and rhs:
+            return 'set %s = %s' % (t, rhs)
+        if stores:
+            return 'set %s' % t
+        return 'call %s' % rhs if rhs else 'assign'
+    if isinstance(node, ast.Expr) and isinstance(node.value, ast.Call):
+        return 'call ' + _call_name(node.value)
+    if isinstance(node, ast.Delete):
+        return 'del ' + ','.join(sorted(_chain(x) for x in node.targets))
+    if isinstance(node, ast.Return) and isinstance(node.value, ast.Call):
+        return 'return ' + _call_name(node.value)
+    if isinstance(node, ast.expr):
+        return 'test ' + ','.join(sorted({_call_name(x) for x in ast.walk(node) if isinstance(x, ast.Call)})) \
+            if any(isinstance(x, ast.Call) for x in ast.walk(node)) else 'test'
+    return type(node).__name__
+
+
+def _call_name(call):
+    if isinstance(call.func, ast.Name):
+        if call.func.id == 'setattr' and len(call.args) == 3:
+            return 'setattr()'
+        return call.func.id + '()'
+    return _chain(call.func) + '()'
+
+
+def stmt_sig(g, nid):
+    nd = g.nodes[nid]
+    return sig_of(nd.ast) if nd.ast is not None else nd.label
+
+
+def sig_of_text(text):
+    """signature of a statement given as source text (the BENIGN table and old known-finding keys are written as text)"""
+    try:
+        tree = ast.parse(text)
+    except SyntaxError:
+        return text
+    if not tree.body:
+        return text
+    st = tree.body[0]
+    if isinstance(st, ast.Expr) and not isinstance(st.value, ast.Call):
+        return sig_of(st.value)
+    return sig_of(st)
+
+
 def run(chk):
     c = ctxmod.get()
     chk.rule('C12-O', 'check-before-write: in a mutator no persistent write is followed on a normal path by a statement '
@@ -279,6 +353,11 @@ def run(chk):
     chk.floor('mutators', len(muts), 30)
     ntri = 0
     used = set()
+    seen3 = set()
+    BENIGN_SIG = {}
+    for (fq_, wt_, rt_), why_ in BENIGN.items():
+        k_ = (fq_, sig_of_text(wt_), sig_of_text(rt_))
+        BENIGN_SIG[k_] = why_ if k_ not in BENIGN_SIG or BENIGN_SIG[k_] == why_ else BENIGN_SIG[k_] + ' / ' + why_
     for f in sorted(muts, key=lambda x: x.qualname):
         g, W, R = m.events(f)
         if not W:
@@ -317,13 +396,16 @@ def run(chk):
                 if r == w or r not in after:
                     continue
                 rt = stmt_text(g, r)
+                key3 = (f.qualname, stmt_sig(g, w), stmt_sig(g, r))
+                if key3 in seen3:
+                    continue          # the same kind of write / refusal pair was already judged in this function
+                seen3.add(key3)
                 ntri += 1
-                key3 = (f.qualname, wt, rt)
                 construct = '%s: `%s` then `%s`' % (f.qualname, wt[:60], rt[:60])
                 where = '%s:%d' % (f.module.relpath, g.nodes[w].lineno)
-                if key3 in BENIGN:
+                if key3 in BENIGN_SIG:
                     used.add(key3)
-                    chk.ok('C12-O', construct, 'benign: ' + BENIGN[key3], where, key='C12-O|%s|%s|%s' % key3)
+                    chk.ok('C12-O', construct, 'benign: ' + BENIGN_SIG[key3], where, key='C12-O|%s|%s|%s' % key3)
                 else:
                     chk.fail('C12-O', construct,
                              'persistent state is changed at line %d before `%s` (line %d) can refuse the operation with %s: '
@@ -332,7 +414,7 @@ def run(chk):
                              where, key='C12-O|%s|%s|%s' % key3)
     chk.count('write-then-raise triples examined', ntri)
     if chk.tier == 'thorough':
-        for k in BENIGN:
+        for k in BENIGN_SIG:
             if k not in used:
                 chk.info('C12-O: benign entry %s / %s matched no triple on this tree' % (k[0], k[1][:40]))
     chk.assume('exception escape sets contain explicit raises only (E6), propagated along statically resolved calls; '
